@@ -54,13 +54,13 @@ PROPERTIES = {
              STATIC + 'Decided: counts are summed with + and default 0; count accumulators are threaded; for_each = count(map(f)); counting '
              'chains cannot skip closures. Not decided: multiset equality over schedules.'),
     'C05': P('closures run exactly once per element; source advanced by one thread at a time',
-             ['C05-AFFINE', 'C05-ONCE', 'C01-COMPOSE', 'C05-VISIT', 'C05-SOURCE', 'C05-NOSKIP', 'C05-DRIVE'],
+             ['C05-AFFINE', 'C05-ONCE', 'C01-COMPOSE', 'C05-VISIT', 'C05-SOURCE', 'C05-NOSKIP', 'C05-DRIVE', 'C15-CHUNKCAP'],
              STATIC + 'Decided: stage closures take elements by value; by-reference closures are called at most once per element between '
              'pulls; downstream stages run only on survivors; must-visit tasks observe exhaustion and drop no pulled element; by-value '
              'iterators enter only through the serialising wrapper, built from the whole collection; skip_to_end is raised only by find tasks holding '
              'a match; a chain carrying a user closure is never consumed by len/size_hint/is_empty. Not decided: ConIterOfIter really serialises next().'),
     'C06': P('collect_into appends to, and never disturbs, existing contents',
-             ['C06-RECV', 'C06-MUT', 'C06-OFFSET', 'C06-GROW', 'C01-RESERVE'],
+             ['C06-RECV', 'C06-MUT', 'C06-OFFSET', 'C06-GROW', 'C01-RESERVE', 'C01-KEY'],
              STATIC + 'Decided: a by-value target is never dropped on a normal path and the result depends on it; &mut targets only receive '
              'appends; the write offset is the target length taken before the run; the reservation before every positional conversion covers existing '
              '+ incoming elements; nothing is appended onto a FixedVec directly. Not decided: dependency conversions keep contents.'),
@@ -74,7 +74,7 @@ PROPERTIES = {
              'do_spawn is true only if spawned+1 < max; max <= n for Max(n); Max(1) reaches no runner entry. '
              'Not decided: OS scheduling (thread::scope semantics, T2).'),
     'C09': P('sequential mode is identical to std iterator execution',
-             ['S1', 'S6', 'C09-SEQSHAPE', 'C09-EMPTY', 'S3', 'S7', 'C12-STORE', 'C09-TIES', 'C12-NOSET', 'C09-SUMID', 'C09-NOCONC'],
+             ['S1', 'S6', 'C09-SEQSHAPE', 'C09-EMPTY', 'S3', 'S7', 'C12-STORE', 'C09-TIES', 'C12-NOSET', 'C09-SUMID', 'C09-NOCONC', 'C03-WRAP'],
              STATIC + 'Decided: num_threads(1) dispatches to the sequential kernel on every route; sequential kernels are in-order, lazy / '
              'left-fold std chains rooted at into_seq_iter with closures in declaration order and no chunk size; min*/max* wrappers break ties '
              'like std (first minimum, last maximum); no stage is re-parameterised by the library. '
@@ -96,19 +96,19 @@ PROPERTIES = {
              'and the library itself never calls a setter.',
              assumes=('T1', 'T4')),
     'C13': P('owned elements are dropped exactly once on all non-panicking paths',
-             ['C13-INVENTORY', 'C13-PAIR', 'C13-UNWRAP', 'C13-LEAK', 'C06-RECV', 'C05-VISIT'],
+             ['C13-INVENTORY', 'C13-PAIR', 'C13-UNWRAP', 'C13-LEAK', 'C06-RECV', 'C05-VISIT', 'C15-CHUNKCAP'],
              STATIC + 'Decided: the inventory of ownership primitives is exactly the reviewed one; every raw read is paired with the '
              'length reset and its slot is read once; bags are unwrapped only through the counts-match check; leak primitives only at '
              'the re-owned site. Not decided: drop counts themselves; dependency drop behaviour (T3).'),
     'C14': P('a panicking closure propagates as a panic and never corrupts memory',
-             ['C14-PARTIAL', 'C14-WINDOW', 'C14-PROPAGATE', 'C14-NOWAIT', 'C14-SERIAL', 'S2'],
+             ['C14-PARTIAL', 'C14-WINDOW', 'C14-PROPAGATE', 'C14-NOWAIT', 'C14-SERIAL', 'S2', 'C13-INVENTORY'],
              STATIC + 'Decided: no destructor of a partially written positional buffer is reachable from the runner call\'s unwind edge '
              '(drop-flag aware); no user code can run inside the double-drop window of the merge; join results are unwrapped, nothing '
              'catches or detaches a panic; no loop on the path of a terminal call waits only on state that other threads advance '
              '(a dead worker advances nothing) and no blocking primitive is called; no chain closure is moved into the serialised source of a '
              'concurrent iterator. Not decided: thread::scope re-raises (T2).'),
     'C15': P('parameters never change a result or make a computation fail',
-             ['C15-OBLIG', 'C15-CLAMP', 'C15-ALLOC', 'C15-CHUNKCAP', 'C15-CHUNKCAP-U', 'C15-STACK', 'C15-TIES'],
+             ['C15-OBLIG', 'C15-CLAMP', 'C15-ALLOC', 'C15-CHUNKCAP', 'C15-CHUNKCAP-U', 'C15-STACK', 'C15-TIES', 'C01-KEY', 'C01-MERGE', 'C02-MINIDX', 'C02-FIRST', 'C03-THREAD', 'C03-OUTER', 'C03-MAYBE', 'C04-THREAD', 'C04-SUM', 'C05-VISIT', 'C07-FRAG', 'S2', 'S4', 'S5'],
              STATIC + 'Decided: every panic site (overflow/div-by-zero assertion, expect, assert) of the parameter-resolution slice that '
              'depends on the configuration is discharged by a dominating guard, a constructor invariant, an arithmetic lemma or a stated '
              'assumption; every size handed to an allocating API and, for sources of known length, every resolved chunk size is bounded by the '
